@@ -2184,6 +2184,9 @@ const SEEDS: &[&str] = &[
     "{`\"b\"`: `1`, `\"a\"`: `2`}", "{`1.5`: `1`}", "{`(1, 2)`: `3`}", "[`1`, `\"a\"`, `none`, `true`, `1.5`]",
     // an exact tie between two shortest digit strings goes up: 900719925474099.25 -> "900719925474099.3"
     "(`9007199254740993` / `10.0`) ~ `\"\"`", "`900719925474099.25` ~ `\"\"`", "[`0.5`, `2.5`, `1e23`, `9007199254740993.0`, `4.35`, `0.3`] ~ `\"\"`",
+    // unit bases take exponents beyond u32 (fix 3a8d5c6); every other base and negative exponents fail
+    "`1` ** `4294967296`", "`0` ** `4294967296`", "(-`1`) ** `4294967296`", "(-`1`) ** `4294967297`", "`2` ** `4294967296`", "`1` ** -`1`",
+    "`true` ** `18446744073709551616`", "`1` ** `4294967295`",
     "`1.0`", "`1.5`", "`1e100`", "`1e400`", "`0.1` + `0.2`", "`1` / `3`", "`2` ** `0.5`", "`1e308` * `10`",
     "`1` + `1.0`", "`9007199254740993` + `0.0`", "`9007199254740993` == `9007199254740993.0`",
     "`9007199254740992` == `9007199254740992.0`", "`1` == `1.0`", "`1` == `true`", "`1` < `true`",
